@@ -110,6 +110,14 @@ def run(ctx, res):
             res.violate(f"raising-callback-changes/{comp}",
                         f"[{r['case']['id']}] op {k} {r['case']['ops'][k]!r}: {comp} differs between a raising and a returning callback",
                         {"kind": "cb-pair", "cfg": r["case"]["cfg"], "ops": r["case"]["ops"][:k + 1], "monitors": MONITORS})
+    if ctx.tier == "thorough" and not ctx.searching:
+        # exhaustive small scope: EVERY history of length <= 4 (asyncio) / <= 3 (threaded) over a 12-letter alphabet
+        xs = (gwcheck.small_scope_cases("c04", 4, versions=("2.0", "2.2"), flavours=("async",))
+              + gwcheck.small_scope_cases("c04", 3, versions=("1.4", "1.5", "2.1"), flavours=("async",))
+              + gwcheck.small_scope_cases("c04", 3, flavours=("sync",)))
+        gwcheck.run_cases(ctx, res, xs, MONITORS, SCOPE, "c04x")
+        res.extra["exhaustive_subspaces"] = [f"all {len(xs)} histories of length <= 4 (asyncio 2.0, 2.2) / <= 3 (asyncio other versions, threaded all versions) over "
+                                             "gwcheck.SMALL_ALPHABET, 5 versions"]
     for r in recs:
         st = r["stats"]
         if st.get("c04:tree-changing-line", 0) >= 3 and st.get("c04:callback", 0) >= 1:
